@@ -26,7 +26,7 @@ PROPS = {
                 rule="runs over all families/boxes/gradient modes; non-trivial = some evaluated point has a coordinate exactly on a bound and >=1 iteration; distinct by (problem seed, mode)",
                 explanation="theorem C02_points_in_box over the driver model for every kernel/line-search behaviour; bit-exact driver correspondence; FD stencil points observed only",
                 assumptions=COMMON_ASSUME + ["SciPy's approx_derivative keeps stencil points inside the bounds it is given (observed by the search, not proved)"]),
-    "C03": dict(monitor=D1, level="proof", corr=["driver"],
+    "C03": dict(monitor=D1, level="proof", corr=["driver:budget"],
                 rule="runs with maxls 1..20 and maxfun from 1; non-trivial = >=2 iterations and a line search with >=2 trials; distinct by problem seed",
                 explanation="theorem C03_monotone over the driver model; bit-exact driver correspondence",
                 assumptions=COMMON_ASSUME),
@@ -35,7 +35,7 @@ PROPS = {
                      "every case is non-trivial; distinct by (problem, message, configuration)",
                 explanation="theorem C04_report over the driver model (all oracles), generated stop tests and message table; bit-exact driver correspondence",
                 assumptions=COMMON_ASSUME + ["objective values are not NaN (NaN makes every comparison false; the malformed stream is outside the theorem)"]),
-    "C05": dict(monitor=D1, level="proof", corr=["driver", "sf"],
+    "C05": dict(monitor=D1, level="proof", corr=["driver:restart", "driver", "sf"],
                 rule="runs in all gradient modes, restart chains of length 0..4, scalers; non-trivial = >=1 iteration; distinct by (problem seed, mode, chain length)",
                 explanation="theorem C05_coherent over the driver model using the wrapper invariant of C15; bit-exact driver correspondence",
                 assumptions=COMMON_ASSUME),
